@@ -268,6 +268,23 @@ def timers(cx):
     cx.check(okh and oke and allr, "tick:dispatch", "tick(): leaders run the heartbeat tick, every other role the election tick")
 
 
+def _is_payload_sum(cx, e):
+    from ..idioms import closure_returns
+    if not (e[0] == "call" and e[1].endswith("::sum") and len(e[2]) == 1):
+        return False
+    m = e[2][0]
+    if not (m[0] == "call" and m[1].endswith("::map") and len(m[2]) == 2 and m[2][1][0] == "closure"):
+        return False
+    it = m[2][0]
+    if not (it[0] == "call" and it[1].endswith("::iter") and it[2][0][0] == "param"):
+        return False
+    rets = closure_returns(cx.prog, m[2][1][1])
+    if not rets or len(rets) != 1:
+        return False
+    r = rets[0][1]
+    return r[0] == "call" and r[1].endswith("::len") and any(x[0] == "field" and x[2].endswith("Entry.data") for x in walk(r))
+
+
 @obligation("FLOW.uncommitted", ["C10", "C13"], floor=3, kind="return shape + order",
             why="proposals must be refused beyond max_uncommitted_size, but one is always admitted when nothing is outstanding and empty payloads never refused")
 def uncommitted(cx):
@@ -288,12 +305,30 @@ def uncommitted(cx):
     kinds = {k for k, p in (("nolimit", nolimit), ("size0", size0), ("unc0", unc0), ("fits", fits)) if any(has(l, p) for l in tr)}
     ok_f = bool(fa) and all(has(l, over) and not has(l, nolimit) and not has(l, size0) and not has(l, unc0) for l in fa)
     cx.check(ok_t and ok_f and kinds == {"nolimit", "size0", "unc0", "fits"}, "admission", "admit iff no limit | size == 0 | nothing outstanding | size + outstanding <= max (true-paths: %s)" % sorted(kinds))
-    # the counter is increased exactly on the admitting (limited) paths
-    ok = bool(adds)
-    for lits, v, b in rets:
-        if v == ("bool", False):
-            ok = ok and not g.dominated_by_block((b, "term"), lambda bb: bb in adds) or True
-    cx.check(ok, "accounting", "admitted payload bytes are added to uncommitted_size")
+    # the size that is tested and charged is the sum of the payload lengths of the offered entries
+    szs = {l[1] for lits in tr + fa for l in lits if size0(l)}
+    cx.check(len(szs) == 1, "size:one", "one payload size is tested against zero")
+    for sz in szs:
+        cx.check(_is_payload_sum(cx, sz), "size:shape", "the payload size is sum(len(entry.data)) over the offered entries, nothing added (found %s)" % show(sz)[:140])
+        for lits in fa:
+            for l in lits:
+                if over(l):
+                    e = l[1][3]
+                    okf = e[0] == "bin" and e[1] == "Add" and sz in e[2:4] and any(is_f(x, "UncommittedState.uncommitted_size") for x in e[2:4])
+                    cx.check(okf, "limit:shape", "refused iff max_uncommitted_size < size + uncommitted_size (found %s)" % show(e)[:140])
+    # the counter is increased on every admitting (limited) path, by exactly the payload size, and never on a refusing one
+    addsites = [s for s in cx.prog.writes.get("UncommittedState.uncommitted_size", []) if s.fn is f and "stmt" in s.data]
+    cx.check(len(addsites) == 1, "accounting:site", "admission adds to uncommitted_size at one site")
+    admit_edge = lambda lits: any(size0(l) or unc0(l) or fits(l) for l in lits)
+    ok, ne = g.after_edge_must_pass(admit_edge, lambda b: b in adds)
+    cx.check(ok and ne >= 1, "accounting", "every admitted (limited) proposal is added to uncommitted_size")
+    for s in addsites:
+        v = write_value(cx, s)
+        okv = v[0] == "bin" and v[1] == "Add" and any(is_f(x, "UncommittedState.uncommitted_size") for x in v[2:4]) and any(x[0] in ("call", "local", "phi") for x in v[2:4])
+        cx.check(okv, "accounting:value", "uncommitted_size += the payload size just admitted (found %s)" % show(v)[:120], s)
+        over_edge = lambda lits: any(over(l) for l in lits)
+        okr, _ = g.after_edge_never_reaches(over_edge, lambda b: b in adds)
+        cx.check(okr, "accounting:refused", "a refused proposal is not charged", s)
     # the leader's append asks first and appends nothing when refused
     from .append import stamp_fns
     for lf in stamp_fns(cx).values():
